@@ -13,11 +13,14 @@ Pipeline
      with usage + an `error:` line on stderr (exit_on_error true), SystemExit(0) only when the argv asks for
      help / print_config.  Anything else is a violation unless it matches the narrow signature of an OPEN
      known finding (known_findings.d/C03.json);
- (3) dynamic validation of the model, in the same runs: the stage entry points are wrapped (monkey-patching
-     inside the harness process) and every exception is attributed to the innermost stage boundary it
-     crosses first; the (stage, class) pairs are compared with `stageRaises`, and for the failure that
-     decides the outcome the real outcome must be one that `route` (Drv/ExcFlow, all call paths)
-     computes for (exit_on_error, mode, method, stage, class);
+ (3) dynamic validation of the model, in the same runs: the entry points of the model's regions (stages) are
+     wrapped (monkey-patching inside the harness process, no edit of /repo) and every exception is attributed
+     to the innermost region boundary it crosses first (conversions `raise X from ex` are followed back to
+     their origin); the observed (region, class) pairs are compared with `designed` (the undesigned ones are
+     listed in the evidence: they are exactly the open findings plus attribution artefacts), and for the
+     failure that decides the outcome of a conforming run the real outcome must be one that `route`
+     (Drv/ExcFlow `routeRegion`: fixed point over all call paths) computes for (exit_on_error, mode, method,
+     region, class);
  (4) replay of the repaired defects F02, F06, F06b, F06c and of the open findings.
 """
 from __future__ import annotations
@@ -941,8 +944,13 @@ class Tracer:
                 mod.parse_value_or_config = W("valueOrConfig", mod.parse_value_or_config)
 
         def yaml_region(tr):
+            # yaml_load as the loader of the mode (yaml; jsonnet: jsonnet_load -> json_or_yaml_load) or as the
+            # mode-independent helper of the basic-types branch (json_or_yaml_load from adapt_typehints)
             fn, _ = caller()
-            return "yamlAlways" if fn == "json_or_yaml_load" else "yamlConstruct"
+            if fn == "json_or_yaml_load":
+                fn2, _ = caller(4)
+                return "yamlConstruct" if fn2 == "jsonnet_load" else "yamlAlways"
+            return "yamlConstruct"
 
         def loader_region(tr):
             # a whole document (directly inside _load_config_parser_mode) or a value
